@@ -57,9 +57,9 @@ from engine_gen import N3_HEAVY, N4, QUICK_PATTERNS  # noqa: E402
 for pat in QUICK_PATTERNS:
     OBLIGATIONS.append(_mk(pat, 3, "both", 400))
 for pat in N3_HEAVY:
-    OBLIGATIONS.append(_mk(pat, 3, "thorough", 1500))
+    OBLIGATIONS.append(_mk(pat, 3, "thorough", 900))
 for pat in N4:
-    OBLIGATIONS.append(_mk(pat, 3, "thorough", 2400))
+    OBLIGATIONS.append(_mk(pat, 3, "thorough", 1200))
 for pat in ("PDp", "DdP", "PPP", "DpDp", "DpDd"):
     OBLIGATIONS.append(_mk(pat, 2, "both", 400))
     OBLIGATIONS.append(_mk(pat, 1, "both", 400))
